@@ -65,3 +65,17 @@ Theorem C04_byte_level_bucket_scan : forall sig2 h,
   exists j off s', next_nonempty h (nb h) idx = Ok (j, off) /\
     Io.next_key_piece_offset (nb h) idx s = Ok (j, off, s') /\ ro_step s s'.
 Proof. exact Io_b_scan_total. Qed.
+
+(** a traversal INSIDE any history, after a reopen of the files (Io_wrun.v): the files a session left, opened again with any
+    buffer kinds, then any history of calls, traversals and statistics: every traversal returns a permutation of the ideal map
+    of that moment with exact hints, then [None] twice. *)
+From Aby Require Import Spec Refine_all Load_all Layout Io Io_run Io_wrun.
+Theorem C04_byte_level_traversals_inside_any_history_after_a_reopen : forall s sp h k v st0 ops,
+  wf_state s -> represents s sp -> render s = Ok (h, k, v) -> Io.st_images st0 = (h, k, v) ->
+  (0 < Io.fcs (Io.get_file st0 Io.FKey))%N -> (0 < Io.fcs (Io.get_file st0 Io.FVal))%N ->
+  Forall (wop_wf (kt s)) ops -> wsized s ops ->
+  exists m st1 s' m' outs,
+    Io.open_existing (kt s) st0 = Ok (Io.Opened m, st1) /\
+    wstore_run s ops = Ok (s', outs) /\ wio_run m ops = Ok (m', outs) /\
+    simg s' m' /\ wf_state s' /\ represents s' (wspec_run sp ops) /\ wagree_run sp ops outs.
+Proof. exact Io_reopen_then_whistory. Qed.
